@@ -156,6 +156,8 @@ func init() {
 		{name: "AddListItem", kind: "list"},
 		{name: "AddFootnote", kind: "fn"},
 		{name: "AddEndnote", kind: "en"},
+		{name: "RemoveFootnote(every own note)", kind: "fnrm"},
+		{name: "RemoveEndnote(every own note)", kind: "enrm"},
 		{name: "SetFootnoteConfig", kind: "fncfg"},
 		{name: "SetTitle", kind: "title"},
 		{name: "AddParagraph({{#image pic}})", kind: "placeholder"},
@@ -181,6 +183,9 @@ func init() {
 
 type c02Args struct {
 	MaxOthers int `json:"max_others"`
+	// Narrow: second search with a small alphabet (one header kind, two footer kinds, one picture, list,
+	// footnote add/remove) from the fresh document only, explored deeper than the wide search
+	Narrow bool `json:"narrow"`
 	Shard     int `json:"shard"`
 	NShards   int `json:"nshards"`
 }
@@ -193,8 +198,12 @@ type c02Inst struct {
 	reop   int
 	rend   int
 	nph    int
+	nfn    int
+	nen    int
 	seedOK string
 }
+
+var c02NarrowKinds = map[string]bool{"hdr0": true, "ftr0": true, "ftr1": true, "png": true, "list": true, "fn": true, "fnrm": true}
 
 func (i *c02Inst) Enabled(op int) bool {
 	o := c02Ops[op]
@@ -202,12 +211,28 @@ func (i *c02Inst) Enabled(op int) bool {
 		if i.doc != nil {
 			return false
 		}
+		if i.args.Narrow {
+			return c02Seeds[o.arg].Fresh
+		}
 		return len(c02Seeds[o.arg].Others) <= i.args.MaxOthers
 	}
 	if i.doc == nil {
 		return false
 	}
+	if i.args.Narrow {
+		k := o.kind
+		if k == "hdr" || k == "ftr" {
+			k += fmt.Sprint(o.arg)
+		}
+		if !c02NarrowKinds[k] {
+			return false
+		}
+	}
 	switch o.kind {
+	case "fnrm":
+		return i.nfn > 0
+	case "enrm":
+		return i.nen > 0
 	case "reopen":
 		return i.reop < 1
 	case "render":
@@ -266,8 +291,21 @@ func (i *c02Inst) Apply(op int) (string, []rep.Violation) {
 			i.doc.AddListItem("li", &document.ListConfig{Type: document.ListTypeNumber})
 		case "fn":
 			err = i.doc.AddFootnote("t", "note")
+			i.nfn++
 		case "en":
 			err = i.doc.AddEndnote("t", "note")
+			i.nen++
+		case "fnrm":
+			// ids are decimal counters; an id that does not exist is refused, which is not judged here
+			for id := 1; id <= 8; id++ {
+				i.doc.RemoveFootnote(fmt.Sprint(id))
+			}
+			i.nfn = 0
+		case "enrm":
+			for id := 1; id <= 8; id++ {
+				i.doc.RemoveEndnote(fmt.Sprint(id))
+			}
+			i.nen = 0
 		case "fncfg":
 			err = i.doc.SetFootnoteConfig(document.DefaultFootnoteConfig())
 		case "title":
@@ -333,7 +371,7 @@ func (i *c02Inst) Key() string {
 			}
 		}
 	}
-	return i.origin + "|" + refs + "|" + i.doc.VerifRelDump() + "|" + strings.Join(i.doc.VerifPartNames(), ",") + fmt.Sprintf("|n%d r%d t%d p%d", len(i.doc.Body.Elements), i.reop, i.rend, i.nph) + "|" + i.doc.VerifNotesDump()
+	return i.origin + "|" + refs + "|" + i.doc.VerifRelDump() + "|" + strings.Join(i.doc.VerifPartNames(), ",") + fmt.Sprintf("|n%d r%d t%d p%d f%v e%v", len(i.doc.Body.Elements), i.reop, i.rend, i.nph, i.nfn > 0, i.nen > 0) + "|" + i.doc.VerifNotesDump() + "|" + i.doc.VerifShallowState()
 }
 
 func (i *c02Inst) Deep() []rep.Violation {
@@ -356,7 +394,7 @@ func runC02(r *rep.Run) {
 	if r.Tier == "thorough" {
 		depth, maxOthers = 4, 2
 	}
-	r.Rule = "BFS over relationship-creating histories (body/cell/template-placeholder images, headers and footers of all kinds, list, notes, settings, properties, render, reopen) from a fresh document and from every opened foreign package whose styles/image/header/numbering relationships carry every injective assignment of ids from {rId1,rId2,rId3,rId4,rId7,x1}; every distinct state is saved and the relationship-graph invariant evaluated by the independent reader (ids unique per rels part, internal targets present, types on the right owner, every r:id/r:embed resolves to a relationship of the matching type); signatures carry the origin class (fresh / opened dense / opened sparse / styles not rId1); non-trivial = every executed operation (all create or move relationships)"
+	r.Rule = "BFS over relationship-creating histories (body/cell/template-placeholder images, headers and footers of all kinds, list, notes and their removal, settings, properties, render, reopen) from a fresh document and from every opened foreign package whose styles/image/header/numbering relationships carry every injective assignment of ids from {rId1,rId2,rId3,rId4,rId7,x1}; every distinct state is saved and the relationship-graph invariant evaluated by the independent reader (ids unique per rels part, internal targets present, types on the right owner, every r:id/r:embed resolves to a relationship of the matching type); signatures carry the origin class (fresh / opened dense / opened sparse / styles not rId1); non-trivial = every executed operation (all create or move relationships)"
 	r.Bounds["depth_including_seed"] = depth
 	r.Bounds["max_other_relationships_in_seed"] = maxOthers
 	n := 0
@@ -368,4 +406,11 @@ func runC02(r *rep.Run) {
 	r.Bounds["seeds"] = n
 	r.Bounds["alphabet_without_seeds"] = c02SeedBase
 	r.Merge(seqx.Search("C02", seqx.Opts{Depth: depth, Deadline: r.Deadline, Args: c02Args{MaxOthers: maxOthers}}))
+	narrow := 6
+	if r.Tier == "thorough" {
+		narrow = 8
+	}
+	r.Bounds["narrow_depth_including_seed"] = narrow
+	r.Bounds["narrow_alphabet"] = "AddHeader(default), AddFooter(default), AddFooter(first), AddImageFromData(png), AddListItem, AddFootnote, RemoveFootnote(every own note); fresh document only"
+	r.Merge(seqx.Search("C02", seqx.Opts{Depth: narrow, Deadline: r.Deadline, Args: c02Args{Narrow: true}}))
 }
